@@ -6,7 +6,12 @@ TRUSTED = [
     "(Date with its norm steps, AddDate, Truncate, Sub, wall-clock accessors; fixed-offset zones), tied by differential runs "
     "(harness/cmd/c19chrono) — not a translation",
     "Go harness + generators + monitors + reference day-count calendar (harness/cmd/c19chrono, harness/vh), bin/check, lib/vlib.py",
-    "Go's package time and its embedded zone database (wall-clock oracle of the DST-zone monitors; New_York and Berlin are checked on the Go side only)",
+    "hand-written model coq/C19/ZoneModel.v of zones as transition tables (Location.lookup as a scan of the sorted table, the zone part of time.Date, wall-clock readers, AddDate, "
+    "the chrono helpers over a table), tied by differential runs on the tables of seven IANA zones extracted from package time with Time.ZoneBounds — not a translation",
+    "Go's package time and its embedded zone database: the CONTENT of the tables (the IANA data itself, the TZ-string extension rule that package time applies after the last "
+    "embedded transition — its pieces are extracted like any other but the rule is not modelled —, and the absence of leap seconds in Go) is taken from package time, not proved; "
+    "package time is also the wall-clock oracle of the DST-zone monitors",
+    "ZoneLit.v: Uint63 decoder of the printed tables (generated shards only)",
     "Uint63 primitive integers only as decoder of large literals in generated case files (ChronoRun.W); no theorem depends on them",
 ]
 HARNESSES = [{"pkg": "c19chrono", "sub": "chrono"}]
@@ -20,16 +25,27 @@ MANIFEST = {
             "equals shared interior for positive-length periods; the StateLine container keeps its points in chronological order with distinct states for every "
             "history and GetStateByTime returns the state of the latest point not after the time. The model is compared with the Go code on every run: boundary-concentrated instants in five "
             "fixed zones output by output, all pairs of periods over 6-point lattices, and (thorough) every day of 1900..2299 x 5 times of day in three zones "
-            "via a digest recomputed in Coq by an evaluator proved equal to the model. America/New_York and Europe/Berlin are checked by Go monitors that "
-            "state the property directly (every day of the cycle x every weekday x week offset -3..3 in thorough).",
-    "note": "The Coq statements cover fixed-offset zones only; zones with DST shifts are covered by the Go-side monitors with package time as wall-clock oracle "
-            "(a repeated or skipped wall-clock time on a day means what time.Date resolves it to). The model follows the code repaired by "
+            "via a digest recomputed in Coq by an evaluator proved equal to the model. Zones with offset changes are TRANSITION TABLES (round 12): proved for every well-formed table "
+            "(offsets within B, consecutive transitions more than D >= 2B apart): Location.lookup returns the offset in force with start <= u < end; time.Date returns w - off(w - off(w)), an instant "
+            "showing the requested wall clock whenever one exists (THE instant when the wall clock is regular) and, inside a gap, the wall clock shifted by the gap (which way is characterised); "
+            "start/end of day have the instant's civil date, read 00:00:00 / 23:59:59, bracket the instant and are the exact day boundary whenever that wall clock exists exactly once "
+            "(distance = time of day corrected by the offset change, < 24 h + 2B); a table without transitions is the fixed-offset model (all z_ functions equal); the 168-hour code as written "
+            "is refuted on the New_York table inside Coq. The table model is compared with the Go code and package time on every run on the tables of America/New_York, Europe/Berlin, "
+            "Australia/Lord_Howe, America/Sao_Paulo, America/Havana, Asia/Kathmandu, Pacific/Apia extracted with Time.ZoneBounds (every helper output, time.Date in gaps and repeated hours, "
+            "AddDate, lookup, zone_okb 18h 36h of each table, midnight_regular of each generated day), in addition to the Go monitors that state the property directly "
+            "(every day of the cycle x every weekday x week offset -3..3 in thorough).",
+    "note": "For zones with offset changes the theorems cover lookup, time.Date, start and end of day; the week, relative-week, next-moment and same-day/week/month clauses are NOT yet proved over tables "
+            "(proved for fixed offsets; over tables they are covered by the model/implementation correspondence on the seven real tables and by the Go monitors, "
+            "where a repeated or skipped wall-clock time on a day means what time.Date resolves it to). Not proved: the zone database itself, the TZ-string extension rule, leap seconds (Go has none). "
+            "Observations in zones whose DST starts at local midnight (Sao_Paulo, Havana, Kathmandu 1986, Apia 2010): on a day without 00:00:00 the week helpers inherit the 23:00 / 00:15 that time.Date "
+            "substitutes, and GetNextMoment can return an instant that is not in the future (Havana, eve of the shift, time inside the skipped hour); the monitors skip and count these "
+            "(distribution monitor_checks_skipped), the model reproduces them. The model follows the code repaired by "
             "fixes/C19-dst-calendar-arithmetic.patch (AddDate instead of adding 168 h; time.Date instead of moment.AddDate); theorem "
             "C19_fixed_offset_week_arithmetic shows the unrepaired code computes the same values in fixed-offset zones, so on the unrepaired tree only the "
             "DST monitors fire (GetRelativeStartOfWeek, NewPeriodWindowWeek, GetNextMoment). Not modelled: ToDuration*, StateLine triggers, the float-based "
             "Period.Days/Hours/Minutes/Seconds; Duration-valued results are proved while they fit an int64. Trusted: hand-written model, harness, monitors, "
             "reference calendar, Go's time package.",
-    "technique": "Coq proofs over Z (lia + complete vm_compute sweep of the 400 years / 4800 months of one Gregorian era) + differential runs in Coq (vm_compute) + Go property monitors",
+    "technique": "Coq proofs over Z and over lists of transitions (induction on the table, lia + complete vm_compute sweep of the 400 years / 4800 months of one Gregorian era) + differential runs in Coq (vm_compute) + Go property monitors",
 }
 
 
@@ -39,4 +55,4 @@ def check(ctx):
 
 
 def replay(ctx, path):
-    return vlib.standard_replay(ctx, {"moment": "c19chrono", "period": "c19chrono", "stateline": "c19chrono", "dst": "c19chrono", "sweep": "c19chrono"}, path)
+    return vlib.standard_replay(ctx, {"moment": "c19chrono", "period": "c19chrono", "stateline": "c19chrono", "dst": "c19chrono", "dsttab": "c19chrono", "sweep": "c19chrono"}, path)
